@@ -27,3 +27,5 @@ SPEC = dict(
              "non-ASCII SKIs are outside the model (Go's ToLower is Unicode-aware; SKIs are hex)"],
     assumptions=["norm_first table (regenerated from hub/*.go) decides which entry points normalise first"],
 )
+
+SPEC["manifest"]["text"] += " The snapshot after a hub operation includes the number of service records and of paired ones (hook VerifServiceCounts); a fifth of the scenarios start without a record for the SKI, so that the operation's own lookup creates it."
